@@ -1017,6 +1017,9 @@ class Analyzer:
                         res = (0, 0)
                 return AV(iv=res, cmp=("inrange", ("place", item.ref), lo[0], hi[1]))
             return AV(iv=(0, 1))
+        if path in ("core::result::Result::<T, E>::unwrap", "core::result::Result::<T, E>::expect",
+                    "core::option::Option::<T>::unwrap", "core::option::Option::<T>::expect") and isinstance(a0.pay, tuple):
+            return AV(iv=a0.pay)
         if path in STD_RANGES:
             return AV(iv=STD_RANGES[path])
         if path in ("util::t::Constant::value", "util::t::Constant::bound") and a0.iv is not None:
